@@ -30,7 +30,7 @@
 (* price symbol, the pair read from the pool's own valuation helper         *)
 (* (UniLpMarket.get_position_amount).  The vault logic is specified on top. *)
 (***************************************************************************)
-EXTENDS Wallet, FiniteSets, TLC
+EXTENDS Wallet, SqueethTwap, FiniteSets, TLC
 
 CONSTANTS Rows,       \* sequence of price symbols [nf, eth, sq : Q]
           LPTab,      \* sequence (LP kind) of sequences (symbol) of <<WETH amount, oSQTH amount>>
@@ -59,27 +59,7 @@ EpsWit   == QDiv(One, QN(NTen(15)))        \* accuracy demanded of the spec's ow
 EmptyVault == [coll |-> Zero, short |-> Zero, lp |-> 0]
 
 -----------------------------------------------------------------------------
-(* TWAP: geometric mean of the window, specified RELATIONALLY.               *)
-RECURSIVE Prod(_)
-Prod(ps) == IF ps = <<>> THEN One ELSE QMul(Head(ps), Prod(Tail(ps)))
-
-(* g is a geometric mean of ps up to relative eps  iff  (g(1-eps))^n <= prod ps <= (g(1+eps))^n *)
-TwapOk(g, ps, eps) ==
-  LET n == Len(ps)
-      P == Prod(ps)
-  IN  /\ QLe(QPow(QMul(g, QSub(One, eps)), n), P)
-      /\ QLe(P, QPow(QMul(g, QAdd(One, eps)), n))
-
-(* a witness: Newton iteration for x^n = P from the arithmetic mean (>= geometric mean), iterates rounded to 24 places *)
-RECURSIVE Newton(_, _, _, _)
-Newton(P, n, x, it) ==
-  IF it = 0 THEN x
-  ELSE LET x1 == QDiv(QAdd(QMul(QI(n - 1), x), QDiv(P, QPow(x, n - 1))), QI(n))
-       IN  Newton(P, n, QRound(x1, 24, "HALF_EVEN"), it - 1)
-AllEqual(ps) == \A i \in DOMAIN ps : ps[i] = ps[1]
-GeoWit(ps) == IF AllEqual(ps) THEN ps[1]
-              ELSE Newton(Prod(ps), Len(ps), QDiv(QSumSeq(ps), QI(Len(ps))), 9)
-
+(* TWAP: relational definition TwapOk and the witness GeoWit live in SqueethTwap.tla *)
 WindowOf(path) == LET n == Len(path) IN SubSeq(path, IF n > TwapBars THEN n - TwapBars + 1 ELSE 1, n)
 PricesOf(w, f) == [i \in DOMAIN w |-> Rows[w[i]][f]]
 TwapWit(path, f) == IF Live THEN GeoWit(PricesOf(WindowOf(path), f)) ELSE Rows[path[Len(path)]][f]
